@@ -283,4 +283,10 @@ def run(ctx):
                     asserted = True
     ctx.check(asserted, "create", "tick-positive", ctx.loc(nf), "OrderBook::new refuses a tick size of 0 (the `price % tick_size` tests cannot divide by zero)",
               "OrderBook::new accepts tick_size == 0: every limit-order creation would divide by zero")
+    # "the published per-level data accounts for all resting volume within its range": level i of a side is the volume and count
+    # stored at touch -/+ i ticks, and a level whose price would leave the price range publishes nothing (rule shared with C02)
+    from . import c02
+    from .c06 import _Prefixed
+    c02.level_walk(_Prefixed(ctx, "levels-"), m)
+
     ctx.assume("tick_size > 0 (asserted by OrderBook::new; a deserialised snapshot is assumed to come from such a book)")
